@@ -824,8 +824,10 @@ def remap_by_types(
 
         def visit_UnaryOp(self, node: ast.UnaryOp) -> Any:
             t_node = self.generic_visit(node)
-            self._found_types[node] = self._found_types[node.operand]
-            self._found_types[t_node] = self._found_types[node.operand]
+            assert isinstance(t_node, ast.UnaryOp)
+            operand_type = self.lookup_type(t_node.operand)
+            self._found_types[node] = operand_type
+            self._found_types[t_node] = operand_type
             return t_node
 
         def visit_BinOp(self, node: ast.BinOp) -> Any:
@@ -930,7 +932,12 @@ def remap_by_types(
                 (ast.literal_eval(f), self.lookup_type(v))  # type: ignore
                 for f, v in zip(t_node.keys, t_node.values)
             ]
-            dict_dataclass = make_dataclass("dict_dataclass", fields)
+            try:
+                dict_dataclass = make_dataclass("dict_dataclass", fields)
+            except (TypeError, ValueError):
+                # Keys that can't be field names (not identifiers, keywords, etc.): this is
+                # still a fine dictionary, we just have no type information for it.
+                return t_node
 
             self._found_types[t_node] = dict_dataclass
             return t_node
